@@ -60,6 +60,13 @@ void generate(Rng& r, Workload& w, int tier) {
         w.cfg = {int64_t(16 + r.below(3)), int64_t(r.below(2)), int64_t(r.range(1050000, 1300000)), int64_t(r.next() >> 2), int64_t(r.below(3))};
         return;
     }
+    if (tier && r.chance(1, 5000)) {
+        // thorough tier only: a tiny-threshold variant on exactly 2^16 - 1, 2^16 or 2^16 + 1 strings (widths of
+        // index types); with one worker the whole input is one small-sort job that runs the sequential sample sort
+        static const int64_t sizes[] = {65535, 65536, 65537};
+        w.cfg = {int64_t(r.below(14)), int64_t(r.below(2)), r.pick(sizes), int64_t(r.next() >> 2), int64_t(r.below(3))};
+        return;
+    }
     int v = int(r.below(NVAR));
     w.cfg = {v, int64_t(r.below(2))};
     const bool suffix = VARIANTS[v].set == c04::SK_SUFFIX;
@@ -157,7 +164,7 @@ void execute(const Workload& w, Result& res) {
             else t = pool[g.below(1000)];
             in.strings.push_back(std::move(t));
         }
-        res.probe("big_default_threshold_run");
+        res.probe(big_n > 1000000 ? "big_default_threshold_run" : "run_of_about_65536_strings");
     }
     for (auto& op : w.ops) {
         std::string s;
